@@ -360,6 +360,64 @@ Theorem C06_sigops_ok_unconditional_refuted : exists orc t i, ~ sigops_ok (mk_si
 Proof. exact sigops_ok_unconditional_refuted. Qed.
 Print Assumptions C06_sigops_ok_unconditional_refuted.
 
+(** * 8. Audit B additions (proofs/AuditB_C06.v): the pieces above, composed *)
+From GoBT Require Import proofs.AuditB_C06.
+
+(** OP_CHECKSIGVERIFY / OP_CHECKMULTISIGVERIFY are the plain operations followed by OP_VERIFY: every statement
+    above about the plain form (vf = false) transfers *)
+Theorem C06_checksig_verify_variant : forall orc t i c s idx,
+  checksig_run orc t i c s idx true = option_map (finish_verify true) (checksig_run orc t i c s idx false).
+Proof. exact checksig_verify_variant. Qed.
+Print Assumptions C06_checksig_verify_variant.
+Theorem C06_checkmultisig_verify_variant : forall orc t i c s idx,
+  checkmultisig_run orc t i c s idx true = option_map (finish_verify true) (checkmultisig_run orc t i c s idx false).
+Proof. exact checkmultisig_verify_variant. Qed.
+Print Assumptions C06_checkmultisig_verify_variant.
+
+(** OP_CHECKMULTISIG end to end ([C06_multisig_eval] + [C06_loop_invariant] + [C06_multisig_matching]): on a stack
+    n :: keys(n) ++ m :: sigs(m) ++ dummy :: rest within the limits, with a null dummy under STRICTMULTISIG and
+    well-encoded keys and signatures, the operation pushes [ok] (or fails under NULLFAIL when [ok] is false and a
+    signature is not empty) and [ok] is true exactly when the signatures match keys in key order *)
+Theorem C06_checkmultisig_accepts_iff_matching : forall orc t i c s idx nk pks ns sigs dummy rest a b,
+  oracle_total orc ->
+  ds s = nk :: pks ++ ns :: sigs ++ dummy :: rest ->
+  pop_count c nk = Some a -> to_int32 a = Z.of_nat (length pks) ->
+  pop_count c ns = Some b -> to_int32 b = Z.of_nat (length sigs) ->
+  (length sigs <= length pks)%nat -> (Z.of_nat (length pks) <= max_pubkeys c)%Z ->
+  (nops s + Z.of_nat (length pks) <= max_ops c)%Z ->
+  (has_flag c F_STRICTMULTISIG = true -> dummy = []) ->
+  Forall (key_well_encoded c) pks ->
+  Forall (sig_well_encoded t i c (multisig_code_ops c s sigs)) sigs ->
+  exists ok,
+    (ok = true <-> monotone_matching (fun sg k => pair_ok orc t i c (multisig_code_ops c s sigs) sg k = true) sigs pks) /\
+    checkmultisig_run orc t i c s idx false =
+      if negb ok && has_flag c F_NULLFAIL && existsb (fun sg => Nat.ltb 0 (length sg)) sigs then Some OErr
+      else Some (push_bool (set_nops (set_ds s rest) (nops s + Z.of_nat (length pks))) ok).
+Proof. exact checkmultisig_accepts_iff_matching. Qed.
+Print Assumptions C06_checkmultisig_accepts_iff_matching.
+
+(** the script code is cut from the script being run, along a whole run: [cur] is that script and the code start
+    [last_sep] is never beyond the opcode being executed -- at the start of every script, after every step
+    ([C06_code_start_tracking] says where exactly), and at the end *)
+Theorem C06_code_start_initial : forall ops d s next,
+  code_inv ops 0 (set_ds (init_st ops) d) /\ code_inv next 0 (shift_script s next).
+Proof. intros. split; [apply code_inv_init|apply code_inv_shift]. Qed.
+Print Assumptions C06_code_start_initial.
+Theorem C06_code_start_step : forall orc t i c ops_all p idx s s',
+  code_inv ops_all idx s ->
+  execute_opcode (mk_sigops orc t i) c p idx s = OOk s' \/ execute_opcode (mk_sigops orc t i) c p idx s = OReturn s' ->
+  code_inv ops_all (S idx) s'.
+Proof. exact code_inv_step. Qed.
+Print Assumptions C06_code_start_step.
+Theorem C06_code_start_run : forall orc t i c ops_all ops idx s acc,
+  skipn idx ops_all = ops -> (idx <= length ops_all)%nat -> code_inv ops_all idx s ->
+  match fst (run_ops (mk_sigops orc t i) c ops idx s acc) with
+  | SEnd s' | SReturn s' => cur s' = ops_all /\ (last_sep s' <= length ops_all)%nat
+  | SErr | SPanic => True
+  end.
+Proof. exact run_ops_code_inv. Qed.
+Print Assumptions C06_code_start_run.
+
 (** * non-vacuity *)
 Example C06_tx_ctx_ok_satisfiable : tx_ctx_ok ex_tx 1.
 Proof.
